@@ -70,6 +70,7 @@ func TestVerif_C12_GenerateKey(t *testing.T) {
 	rec.Rule("rapid: randomness stream = 0..4 (occasionally 10..4000 identical) out-of-range 32-byte candidates (0, n-1, n, n+1, 2^256-1, uniform >= n-1) followed by a valid one (uniform, 1, 2, n-2, n-3, leading zeros) and 0..40 trailing bytes; the reader delivers whole requests or short reads of 1/7/16/31 bytes. Oracle: GenerateKey returns err=nil, priv = the first candidate in [1,n-2], exactly 32 bytes consumed per candidate, (x,y) = sm2ref.Mul(d,G) as 32-byte strings; no panic. Non-trivial: at least one rejected candidate or a boundary key; distinct by stream.")
 	t.Cleanup(stats.FlushAll)
 	rapid.Check(t, func(t *rapid.T) {
+		foreignCalls(t, rec, "foreign") // state left behind by other entry points must not matter
 		nrej := gen.Int(t, "nrej", 0, 4)
 		if gen.Bool(t, "none") {
 			nrej = 0
@@ -134,6 +135,7 @@ func TestVerif_C12_TestPrivateKey(t *testing.T) {
 	rec.Rule("rapid: 32-byte strings: values 0..3, n-4..n+2, 2^256-1, uniform, leading 00/FF runs, strings sharing a k-byte prefix with n-1; and 33..40-byte strings. Oracle: for 32 bytes TestPrivateKey==0 iff 1<=value<=n-2 (non-zero otherwise); for longer strings a non-zero code. Non-trivial: value within 4 of a range end, or shares >= 8 leading bytes with n-1; distinct by bytes.")
 	t.Cleanup(stats.FlushAll)
 	rapid.Check(t, func(t *rapid.T) {
+		foreignCalls(t, rec, "foreign") // state left behind by other entry points must not matter
 		r := gen.Rand(t, "seed")
 		cls := gen.Pick(t, "class", "low", "high", "uniform", "prefix", "shape", "long")
 		var b []byte
@@ -179,6 +181,7 @@ func TestVerif_C12_DerivePublic(t *testing.T) {
 	rec.Rule("rapid: private key strings: valid 32-byte keys; 0, n, 2n (if <2^256) i.e. multiples of n; n-1, n+1..n+5, 2^256-1; lengths 0..40. Oracle: never a panic; returns either an error or exactly the 32-byte coordinates of [d]G by sm2ref; for d = 0 mod n (no affine image) it must be an error; for 32-byte d in [1,n-1] it must succeed. Non-trivial: anything but a uniform valid key; distinct by bytes.")
 	t.Cleanup(stats.FlushAll)
 	rapid.Check(t, func(t *rapid.T) {
+		foreignCalls(t, rec, "foreign") // state left behind by other entry points must not matter
 		r := gen.Rand(t, "seed")
 		cls := gen.Pick(t, "class", "valid", "valid", "multiple-of-n", "multiple-of-n", "n-1", "above-n", "max", "length", "shape")
 		var b []byte
@@ -243,6 +246,7 @@ func TestVerif_C12_CheckOnCurve(t *testing.T) {
 	rec.Rule("rapid: coordinate pairs: on-curve points ([m]G, points with tiny x), (x,p-y), off-curve by one bit or +1, x+p / y>=p non-canonical encodings, (0,0), (p,..), wrong lengths 0..40, uniform. Oracle: CheckOnCurve(x,y) iff both are 32 bytes, both values < p and y^2 = x^3-3x+b. Non-trivial: everything except uniform garbage; distinct by (x,y).")
 	t.Cleanup(stats.FlushAll)
 	rapid.Check(t, func(t *rapid.T) {
+		foreignCalls(t, rec, "foreign") // state left behind by other entry points must not matter
 		r := gen.Rand(t, "seed")
 		d, _, _ := sm2gen.PrivKey(t, "d")
 		px, py, _ := sm2gen.Pub(d)
